@@ -597,7 +597,10 @@ class Edit(Text):
         """
         self._shift_view_to_cursor = bool(focus)
 
-        canv: TextCanvas | CompositeCanvas = super().render(size, focus)
+        # Text.render() is cached without regard to focus, but a clipped line follows the cursor only while in focus:
+        # use the undecorated method (this canvas is cached one level up, by Edit.render)
+        text_render = getattr(Text.render, "original_fn", Text.render)
+        canv: TextCanvas | CompositeCanvas = text_render(self, size, focus)
         if focus:
             canv = CompositeCanvas(canv)
             canv.cursor = self.get_cursor_coords(size)
